@@ -18,22 +18,30 @@ RULE = ("every checked entry point of Vector, Matrix, Banded, Tridiagonal, Spars
         "(or is a clone-independence case)") % (len(guardtable.ENTRIES), CHUNK)
 TRUSTED = ["Coq 8.16.1 kernel + vm_compute (lia/ZifyBool proofs are kernel-checked terms)",
            "driver/translate.py: regular-expression/recursive-descent translator from `if cond { panic!(..) }` guards to Gallina booleans over Z",
-           "driver/guardtable.py: which source atoms (self.rows, vec.size(), ...) denote which integer variable",
+           "driver/guardtable.py: which source atoms (self.rows, vec.size(), ...) denote which integer variable; in particular `self.col_start.len()` of Sparse is "
+           "read as c + 1 (the representation invariant wfS of Props/C06.v, proved there for every constructor and operation, not re-derived in C20)",
            "Rust executor harness/src/k_guards.rs (object builders, snapshots, catch_unwind)", "python driver (enumeration, independent python predicates)"]
 ASSUMPTIONS = ["usize arithmetic in guards is modelled over Z (a guard whose subtraction underflows panics in the debug profile, and is counted as firing)",
                "operands behind `&` can only be modified through unsafe code or interior mutability: observed at run time, not proved",
                "raw (i,j) index operators of Matrix, Banded (beyond its band test) and Mesh2D are outside the claim"]
 UNPROVED = ["non-mutation of by-reference operands, owned = borrowed results and clone independence are run-time observations over the enumerated domain (a value model satisfies them vacuously)",
-            "absence of native (index/underflow) panics on conformable input is tied by execution over the enumerated domain and, for the dense-matrix operations, proved in Props/C03.v"]
+            "absence of native (index/underflow) panics on conformable input IS proved at the level of the source-regenerated model (entry_contract_*: on every "
+            "well-formed receiver the modelled entry returns a value exactly on the specified range, and entry_contract_native for the 13 entries guarded only by "
+            "Vec indexing); the step from that model to the compiled code is the execution tie over the enumerated domain"]
 MANIFEST = dict(
-    text=("62 theorems (Props/C20.v), one per checked entry point, each for ALL integer sizes and arguments: the explicit guards of the entry point, "
+    text=("%d theorems (Props/C20.v)." % ntheorems("C20") + " 62 guard_<entry>, one per checked entry point, each for ALL integer sizes and arguments: the explicit guards of the entry point, "
           "regenerated from /repo's source into gen/GuardTable.v on every run, let a call through exactly when the arguments are conformable / in "
           "the documented range (hand-written specification Model/Guards.v); a weakened, inverted or deleted guard breaks its proof obligation. "
+          "13 entry_contract_* theorems (Proofs/Guards2*.v) state the contract on the executable model that is itself proved equal to the source translation "
+          "(model_is_source_C20_*): for every well-formed receiver and ALL arguments, the modelled entry panics with the guard class exactly outside the specified "
+          "range (rejects), returns a value inside it (accepts: no index / underflow panic on conformable input), and a rejected mutator leaves nothing behind because "
+          "the guard precedes every write (mutators_guard_or_return: exactly two outcomes); entry_contract_native covers the 13 entries rejected by Vec indexing; "
+          "entry_contract_refutes_legacy shows the pre-repair set_col is excluded by the contract. "
           "Tied to the code by executing every entry point on every tuple of its enumeration domain (exhaustive, sizes up to 6) and comparing "
           "panic-vs-value with the regenerated guard evaluated in Coq and with an independent python predicate; the executor also detects writes "
           "that happen before a panic, mutation of by-reference operands, owned/borrowed disagreement and clone interference."),
     note=("Guards are extracted by a regular-expression/recursive-descent translator (trusted; a guard it cannot classify is reported as a broken tie). "
-          "Operand non-mutation / clone independence are observed, not proved. Frame properties of the dense-matrix setters are theorems of C03."),
+          "Operand non-mutation / clone independence are observed at run time over the enumerated domain (a value model satisfies them by construction). Frame properties of the dense-matrix setters are theorems of C03."),
     technique="Coq proof (lia over Z) about guards regenerated from the source by a translator + exhaustive small-scope differential execution",
     design="7 (C20)")
 
